@@ -1,12 +1,14 @@
 #!/bin/sh
-# convenience: run every registered check of a tier, summarise
+# convenience: run every registered check of a tier (or the listed ones, in the given order), summarise
 tier=${1:-quick}
+shift 2>/dev/null
+list=${*:-C01 C02 C03 C04 C05 C06 C07 C08 C09 C10 C11 C12 C13 C14 C15 C16 C17 C18 C19}
 rc=0
 mkdir -p work
-for p in C01 C02 C03 C04 C05 C06 C07 C08 C09 C10 C11 C12 C13 C14 C15 C16 C17 C18 C19; do
+for p in $list; do
   /venv/bin/python harness/check.py $p --tier $tier > work/last-$p.log 2>&1
   r=$?
   echo "$p exit=$r $(tail -1 work/last-$p.log | cut -c1-200)"
-  [ $r -ne 0 ] && rc=1
+  [ $r -ne 0 ] && { rc=1; grep -E "^VIOLATION|^MACHINERY" work/last-$p.log | head -5 | cut -c1-600; }
 done
 exit $rc
